@@ -653,11 +653,19 @@ macro_rules! wrap_impl_sint {
                 }
                 fn pingpong(self, upper: Self) -> Self {
                     assert!(upper > Self::zero());
-                    let r = self.wrapped(upper+upper);
-                    if r <= upper {
-                        r
+                    // Triangle wave of period 2*upper, computed without forming 2*upper (which may not be representable):
+                    // floor-divide by upper (non-negative remainder), then mirror the odd half-periods.
+                    let two = Self::one() + Self::one();
+                    let (q, m) = (self / upper, self % upper);
+                    let (r, odd) = if m < Self::zero() {
+                        (m + upper, q % two == Self::zero())
                     } else {
-                        upper+upper-r
+                        (m, q % two != Self::zero())
+                    };
+                    if odd {
+                        upper - r
+                    } else {
+                        r
                     }
                 }
             }
